@@ -34,6 +34,13 @@ fn gen_case(r: &mut Prng, big: bool) -> Case {
         let hs = case.add_handler(HandlerSpec::plain(HKind::Func, Ret::Marker));
         case.pre.push(Op::RegFn { name: (*r.pick(&["sum", "mul", "max"])).into(), h: hs });
     }
+    let minus_overridden = r.chance(1, 3);
+    if minus_overridden {
+        // the application replaced the prefix `-` (parsing `- 5` must not run it, and a kept AST must
+        // apply whatever is registered when it is EVALUATED)
+        let hn = case.add_handler(HandlerSpec::plain(HKind::Prefix, Ret::Marker));
+        case.pre.push(Op::RegPre { name: "-".into(), h: hn });
+    }
     if r.chance(1, 2) {
         // the engine has been used before
         case.pre.insert(0, Op::Exec { prog: Prog::one(lit_i(1)), ctx: CtxRef::Fresh(CtxSpec::empty()) });
@@ -84,6 +91,7 @@ fn gen_case(r: &mut Prng, big: bool) -> Case {
                 stmts.push(bin("&&", bin("in", lit_i(3), Expr::List(vec![lit_i(1), lit_i(2), lit_i(3)])), bin("<=", lit_i(2), lit_i(3))));
             }
             1 => stmts.insert(r.usize(stmts.len() + 1), bin("+", lit_b(true), lit_i(1))), // fails midway
+            6 => stmts.push(Expr::List(vec![un("-", lit_i(5)), un("-", rf("x")), un("+", lit_i(2))])),
             2 if i > 0 => {
                 // textually close to an earlier program: same statements but the last
                 let mut s2 = match &pool[i - 1].0 {
@@ -224,6 +232,24 @@ fn op_of(case: &Case, id: OpId) -> &Op {
 fn judge(case: &Arc<Case>, out: &RunOutput, oracle: &mut AloneOracle, rt: &mut Rt) -> Option<(String, String)> {
     if let Some(v) = run_level_violation(out) {
         return Some(v);
+    }
+    // parsing alone changes nothing observable: in particular it runs no handler of the application
+    {
+        let mut parsing: std::collections::HashSet<usize> = std::collections::HashSet::new();
+        for e in &out.log {
+            match e {
+                Ev::Inv { op, task } if matches!(op_of(case, *op), Op::Parse { .. }) => {
+                    parsing.insert(*task);
+                }
+                Ev::Ret { task, .. } => {
+                    parsing.remove(task);
+                }
+                Ev::H { hid, task, .. } if parsing.contains(task) => {
+                    return Some(("handler_invoked_by_parse".into(), format!("task {} invoked handler h{} while inside parse_expression()", task, hid)));
+                }
+                _ => {}
+            }
+        }
     }
     let results = out.results();
     if results.len() != case.n_ops() {
